@@ -10,17 +10,30 @@ type AccessEvent struct {
 	Site   string `json:"site"`
 	Shared bool   `json:"-"`
 	obj    *Object
+	Seq    int `json:"-"` // engine execution order
+	K      int `json:"-"` // spawn: child thread id; chsend/chrecv: FIFO index of the message
 }
 
 type ThreadTrace struct {
 	Name   string        `json:"name"`
 	Events []AccessEvent `json:"events"`
+	id     int
 }
 
 type accessLog struct {
 	cur    *ThreadTrace
 	traces []*ThreadTrace
 	shared map[*Object]bool // objects reachable from the shared roots at thread start
+	seq    int
+}
+
+// syncEvent records a synchronisation event (spawn, done, wait, chsend, chrecv, chclose) of the current thread.
+func (a *accessLog) syncEvent(kind, loc, site string, k int) {
+	if a.cur == nil {
+		return
+	}
+	a.seq++
+	a.cur.Events = append(a.cur.Events, AccessEvent{Loc: loc, Kind: kind, Site: site, K: k, Seq: a.seq})
 }
 
 func locOf(p Ptr) string { return fmt.Sprintf("o%d%v", p.obj.id, p.path) }
@@ -36,14 +49,16 @@ func (a *accessLog) record(p Ptr, write bool, site string) {
 	if write {
 		k = "write"
 	}
-	a.cur.Events = append(a.cur.Events, AccessEvent{Loc: locOf(p), Kind: k, Site: site, obj: p.obj})
+	a.seq++
+	a.cur.Events = append(a.cur.Events, AccessEvent{Loc: locOf(p), Kind: k, Site: site, obj: p.obj, Seq: a.seq})
 }
 
 func (a *accessLog) atomic(p Ptr, site string) {
 	if a.cur == nil || (a.shared != nil && !a.shared[p.obj]) {
 		return
 	}
-	a.cur.Events = append(a.cur.Events, AccessEvent{Loc: locOf(p), Kind: "atomic", Site: site, obj: p.obj})
+	a.seq++
+	a.cur.Events = append(a.cur.Events, AccessEvent{Loc: locOf(p), Kind: "atomic", Site: site, obj: p.obj, Seq: a.seq})
 }
 
 func (a *accessLog) lock(p Ptr, acquire bool) {
@@ -54,5 +69,6 @@ func (a *accessLog) lock(p Ptr, acquire bool) {
 	if acquire {
 		k = "acquire"
 	}
-	a.cur.Events = append(a.cur.Events, AccessEvent{Loc: locOf(p), Kind: k, obj: p.obj})
+	a.seq++
+	a.cur.Events = append(a.cur.Events, AccessEvent{Loc: locOf(p), Kind: k, obj: p.obj, Seq: a.seq})
 }
